@@ -183,10 +183,37 @@ func OutcomeViolation(o *simrt.Outcome) *Violation {
 		if i := strings.Index(inner, " < "); i >= 0 {
 			inner = inner[:i]
 		}
-		return &Violation{Signature: fmt.Sprintf("%s in=%s spawned-by=%s", p.Msg, inner, p.SpawnSite),
+		return &Violation{Signature: fmt.Sprintf("%s in=%s spawned-by=%s", p.Msg, stableName(inner), stableName(p.SpawnSite)),
 			Detail: fmt.Sprintf("task %d at step %d: %s; stack: %s; spawned by %s", p.Task, p.Step, p.Msg, p.Frames, p.SpawnSite)}
 	}
 	return nil
+}
+
+// stableName drops the compiler's closure numbering from a function of the
+// harness itself (verif/harness/c10.H.Execute.func2.3 -> verif/harness/c10.H.Execute):
+// a signature must not change when the harness gains a closure. Names inside the
+// code under test are kept as they are.
+func stableName(fn string) string {
+	if !strings.HasPrefix(fn, "verif/harness/") {
+		return fn
+	}
+	for {
+		i := strings.LastIndex(fn, ".")
+		if i < 0 {
+			return fn
+		}
+		last := fn[i+1:]
+		last = strings.TrimPrefix(last, "func")
+		if last == "" {
+			return fn
+		}
+		for _, c := range last {
+			if c < '0' || c > '9' {
+				return fn
+			}
+		}
+		fn = fn[:i]
+	}
 }
 
 // NoProgress is the violation reported when a run exhausts its step budget:
